@@ -268,6 +268,62 @@ theorem decision_still_due (ops : List Op) (s : St) (c : Cfg) (i : Slot) (d : De
         · right; rw [e1]; exact hge
     exact ih (step s1 op).1 d2 g1 hcfg hnow hk
 
+/-! ### when a call starts (the detector compares it with the slot's last response) -/
+
+/-- a placed call starts at the moment of its placement -/
+theorem place_started (s : St) (call : Nat) (slot : Slot) (cmd : Cmd) (loc : Loc) (key : String) (ctx : CtxKind)
+    (dl : Option Int) : (place s call slot cmd loc key ctx dl).1.now = s.now ∧
+    ∀ c ∈ (place s call slot cmd loc key ctx dl).1.calls, c ∈ s.calls ∨ c.started = s.now := by
+  unfold place
+  split
+  · exact ⟨rfl, fun c hc => Or.inl hc⟩
+  · refine ⟨rfl, fun c hc => ?_⟩
+    simp only [modRef, List.mem_append, List.mem_singleton] at hc
+    rcases hc with hc | hc
+    · exact Or.inl hc
+    · right; rw [hc]
+
+/-- **a round-robin BIND call that waited for its channel starts when it is handed the channel**, not when
+    `Pick` was entered: every call the wake-up pass puts in flight carries the current time -/
+theorem woken_call_starts_now (s : St) :
+    (wakeWaiters s).1.now = s.now ∧ ∀ c ∈ (wakeWaiters s).1.calls, c ∈ s.calls ∨ c.started = s.now := by
+  unfold wakeWaiters
+  suffices h : ∀ (l : List Waiter) (acc : St × List Event), (acc.1.now = s.now ∧ ∀ c ∈ acc.1.calls, c ∈ s.calls ∨ c.started = s.now) →
+      ((l.foldl (fun (acc : St × List Event) w =>
+        if slotReady acc.1 w.slot then
+          match placeWaiter { acc.1 with waiters := acc.1.waiters.filter fun x => x.id != w.id } w with
+          | (s, some sc) => (s, acc.2 ++ [.woke w.id sc])
+          | (_, none) => acc
+        else acc) acc).1.now = s.now ∧
+       ∀ c ∈ (l.foldl (fun (acc : St × List Event) w =>
+        if slotReady acc.1 w.slot then
+          match placeWaiter { acc.1 with waiters := acc.1.waiters.filter fun x => x.id != w.id } w with
+          | (s, some sc) => (s, acc.2 ++ [.woke w.id sc])
+          | (_, none) => acc
+        else acc) acc).1.calls, c ∈ s.calls ∨ c.started = s.now) from
+    h s.waiters (s, []) ⟨rfl, fun c hc => Or.inl hc⟩
+  intro l
+  induction l with
+  | nil => intro acc h; exact h
+  | cons w ws ih =>
+    intro acc h
+    simp only [List.foldl_cons]
+    apply ih
+    split
+    · have hp := place_started { acc.1 with waiters := acc.1.waiters.filter fun x => x.id != w.id } w.id w.slot .bind w.loc "" w.ctx w.dl
+      unfold placeWaiter
+      generalize place { acc.1 with waiters := acc.1.waiters.filter fun x => x.id != w.id } w.id w.slot .bind w.loc "" w.ctx w.dl = r at hp
+      obtain ⟨s2, o⟩ := r
+      cases o with
+      | none => exact h
+      | some sc =>
+        simp only at hp ⊢
+        refine ⟨hp.1.trans h.1, fun c hc => ?_⟩
+        rcases hp.2 c hc with h1 | h1
+        · exact h.2 c h1
+        · right; rw [h1]; exact h.1
+    · exact h
+
 /-! non-vacuity: a history after which the rule holds for slot 0 (two calls past their deadlines, uc = 2:
     the second one is about to decide), and the two continuations of `donepark`: the other completion
     refreshes, the replacement takes over and a fresh call is counted — the last-response time has moved;
